@@ -100,6 +100,13 @@ func runC03(em *vEmitter, r *vRng) {
 		h.plant("root", true, ps[0], 1600000000, r.bytes(16), []byte("rootpw"), "\n", nil)
 		h.plant("alice", false, ps[0], 1600000001, r.bytes(16), []byte("alicepw"), "\n", []byte("totp: x\n"))
 		h.plant("bob", false, ps[0], 1600000002, r.bytes(16), []byte("pw"), "\n", nil)
+		// well-formed records under names outside the grammar, enumerated among the valid ones: they
+		// are nobody's account, whatever the listing order
+		for k, bad := range []string{"-x", ".hid", "ro ot", "\u0430dmin", "_u", "@u", "zz\x01"} {
+			if (start/per+k)%2 == 0 {
+				h.plant(bad, k%2 == 0, ps[0], 1600000003, r.bytes(16), []byte("pw"), "\n", nil)
+			}
+		}
 		h.begin()
 		before := treeDigest(root, h.base)
 		viol := ""
@@ -126,6 +133,28 @@ func runC03(em *vEmitter, r *vRng) {
 		for k, v := range h.stats {
 			vStats[k] += v
 		}
+		os.RemoveAll(root)
+	}
+	// the only administrator has a name outside the grammar; valid users are enumerated around it
+	for _, bad := range []string{"-root", ".root", "_root", "@root", "ro ot", "root\x01", "\u0440oot"} {
+		root := vScratch("c03a")
+		ps := []vParam{{ID: 1, Time: 1, Memory: 8, Threads: 1, Length: 16}}
+		h, err := vNewHist(root, ps, 1)
+		if err != nil {
+			panic(err)
+		}
+		for i := 0; i < 12; i++ {
+			h.plant(fmt.Sprintf("user%02d", i), false, ps[0], 1600000000, r.bytes(16), []byte("pw"), "\n", nil)
+		}
+		h.plant(bad, true, ps[0], 1600000000, r.bytes(16), []byte("rootpw"), "\n", nil)
+		h.known = nil // not a history of accounts: only the directory matters here
+		h.begin()
+		for _, o := range []vOp{{kind: "check"}, {kind: "list"}, {kind: "listfull"}, {kind: "auth", u: bad, pw: []byte("rootpw")}, {kind: "exists", u: bad},
+			{kind: "init", u: "newroot", pw: []byte("pw")}, {kind: "check"}} {
+			h.exec(o)
+		}
+		em.emit(vCase{Prop: "C03", Kind: "history", Class: "invalid-named-admin", Nontrivial: true, Coq: h.term(),
+			Human: map[string]interface{}{"admin_file": fmt.Sprintf("%q", bad+".admin"), "ops": h.human}})
 		os.RemoveAll(root)
 	}
 	// the base directory itself is not an object an operation may create: a store whose base directory
